@@ -92,6 +92,9 @@ def special_forms():
     out.append(("add-none-option", gen.simple_form([("select_multiple l1", "s", {"label": "S"}), ("text", "q", {"label": "Q"})], choices={"l1": [{"name": "a", "label": "A"}, {"name": "b", "label": "B"}]},
                                                    settings={"add_none_option": "yes", "form_id": "ano"}), {}))
     out.append(("omit-instance-id+both-ids", gen.simple_form([("text", "q", {"label": "Q"})], settings={"omit_instanceID": "yes", "id_string": "ids", "form_id": "fid"}), {}))
+    # a setting that changes one generated element for this form only (the instanceID preload): the next form gets the default again
+    out.append(("instance-id-setting", gen.simple_form([("text", "q", {"label": "Q"})], settings={"instance_id": "timestamp", "form_id": "iid"}), {}))
+    out.append(("instance-id-setting-dict-no-headers", gen.simple_form([("text", "q", {"label": "Q"})], settings={"instance_id": "myuid", "form_id": "iid2"}), {"with_headers": False}))
     # a refusal whose message lists several questions (collected in sets): same text in every process
     trs = {"label::en": "S", "label::fr": "S"}
     out.append(("refusal-naming-several-questions", gen.simple_form(
@@ -342,6 +345,7 @@ def run_shard(ctx):
             ctx.viol(f"regeneration:outcome-changes-after-refusal:{name}", f"{name}: successive to_xml() calls on one survey give {[o[0] for o in outs]}: {outs[0][1] if outs[0][0] != 'xform' else ''!s:.150}",
                      common.witness(form, case=name, history="to_xml x3 on a survey that is refused"))
     # -- pass 5: threads
+    container_thread_pass(ctx, hs)
     thread_pass(ctx, batch, base, hs, inject=(ctx.tier == "thorough"))
     # focused pass: only the forms that touch process-wide singletons / shared helpers, many times over, so that two such conversions overlap often
     focus = [b for b in batch if b[1] in ("special", "confusable")]
@@ -361,6 +365,54 @@ def run_shard(ctx):
     for msg in hooks.counters.get("cache_violations", []):
         fn = msg.split("(")[0]
         ctx.viol(f"cache-not-transparent:{fn}", msg, {"klass": "hook"})
+
+
+def container_thread_pass(ctx, hs):
+    """Container readers under threads: the same CSV / markdown bytes (one of them with a cell beyond the csv module's default field limit, in a sheet the
+    readers skip) converted by several threads at once. Every outcome equals the one obtained alone, and the process-wide csv limit is what it was."""
+    import csv as _csv
+    big = "x" * 140000
+    short_rows = "".join(f",text,q{k},Q{k}\n" for k in range(400))
+    cases = {
+        "csv-plain": ("survey,,,\n,type,name,label\n" + short_rows).encode(),
+        "csv-big-cell-in-skipped-sheet": ("survey,,,\n,type,name,label\n" + short_rows + "notes,,\n,a,b\n,1," + big + "\n").encode(),
+        "csv-big-label": ("survey,,,\n,type,name,label\n" + short_rows + ",note,big," + big + "\n").encode(),
+        "md-plain": ("| survey |\n| | type | name | label |\n" + "".join(f"| | text | q{k} | Q{k} |\n" for k in range(400))).encode(),
+    }
+    limit0 = _csv.field_size_limit()
+    alone = {k: digests(drive.call_convert(v, file_type="." + k.split("-")[0])) for k, v in cases.items()}
+    res = []
+    lock = threading.Lock()
+    order = list(cases)
+
+    def work(t):
+        for r in range(3):
+            for j in range(len(order)):
+                k = order[(j + t) % len(order)]
+                o = drive.call_convert(cases[k], file_type="." + k.split("-")[0])
+                with lock:
+                    res.append((k, t, digests(o), o.brief()[:100]))
+    old = sys.getswitchinterval()
+    sys.setswitchinterval(1e-5)
+    try:
+        ths = [threading.Thread(target=work, args=(t,)) for t in range(4)]
+        for t_ in ths:
+            t_.start()
+        for t_ in ths:
+            t_.join()
+    finally:
+        sys.setswitchinterval(old)
+    for k, t, d, brief in res:
+        ctx.ctr("thread_conversions")
+        ctx.ctr("container_thread_conversions")
+        ctx.ctr("digest_comparisons")
+        fd = first_diff(alone[k], d)
+        if fd:
+            ctx.viol(f"schedule-dependence:container-readers:{k}:{fd}", f"{k}: {fd} differs when the same bytes are converted in 4 threads at once (thread {t}: {brief}; hash seed {hs})", {"klass": "container-threads", "case": k})
+            break
+    ctx.case(sig=f"container-threads|{hs}")
+    if _csv.field_size_limit() != limit0:
+        ctx.viol("residue:csv-field-size-limit-changed", f"csv.field_size_limit() was {limit0} before the conversions and is {_csv.field_size_limit()} after them", {"klass": "container-threads"})
 
 
 def thread_pass(ctx, batch, base, hs, inject=False, label="all"):
